@@ -347,7 +347,7 @@ def step (s : St) : Ev → Option St
   | .invRelease b r =>
     if b = s.th.length then
       match s.th[r]? with
-      | some (.ref k .retd _ _ _ _) => if k ≠ .hook then some { s with th := s.th ++ [.rel r .inv] } else none
+      | some (.ref _ .retd _ _ _ _) => some { s with th := s.th ++ [.rel r .inv] }
       | _ => none
     else none
   | .relSwap b =>
@@ -376,15 +376,18 @@ def step (s : St) : Ev → Option St
       if unlockedFor s (.thr b) then some { s with th := s.th.set b (.rel r .retd) } else none
     | _ => none
   | .selfRelSwap a =>
+    -- `ref.Release()` called by the consumer that owns the reference (Access, Wait…): the once-flag
     match s.th[a]? with
-    | some (.ref .hook .done live false false told) =>
-      some { s with th := s.th.set a (.ref .hook .done live true true told) }
+    | some (.ref .hook pc live flag self told) =>
+      if pc = .inv then none
+      else if flag then some s
+      else some { s with th := s.th.set a (.ref .hook pc live true true told) }
     | _ => none
   | .selfRelCS a =>
     match s.th[a]? with
-    | some (.ref .hook .done true flag true told) =>
+    | some (.ref .hook pc true flag true told) =>
       if s.free then
-        some (afterRemove { s with th := s.th.set a (.ref .hook .done false flag false told), owner := .other })
+        some (afterRemove { s with th := s.th.set a (.ref .hook pc false flag false told), owner := .thr a })
       else none
     | _ => none
   | .invSetCtx a c clear =>
